@@ -83,6 +83,28 @@ type GCE struct { // GC points INSIDE map values while they are being built
 	P1  Probe                       `json:"p1"`
 }
 
+// Wrap has no pointer-bearing field of its own: what needs the collector's
+// attention sits one struct level down.
+type Wrap struct {
+	N    int64 `json:"n"`
+	In   Inner `json:"in"`
+	Deep struct {
+		L []int64           `json:"l"`
+		M map[string]string `json:"m" verif:"max1"`
+		Y []byte            `json:"y"`
+	} `json:"deep"`
+	F float64 `json:"f"`
+}
+
+type GCN struct { // records behind pointers whose pointers are nested by value
+	P0 Probe   `json:"p0"`
+	PW *Wrap   `json:"pw"`
+	P1 Probe   `json:"p1"`
+	LW []*Wrap `json:"lw"`
+	PP **Wrap  `json:"pp"`
+	P2 Probe   `json:"p2"`
+}
+
 type GCD struct { // all of the above behind a pointer, a slice and a map
 	ID int64          `json:"id"`
 	A  *GCA           `json:"a"`
@@ -133,7 +155,7 @@ func init() {
 		return probeCodec{}, nil
 	})
 	avro.RegisterSchema(reflect.TypeFor[Probe](), avro.Schema{Type: "boolean"})
-	for _, d := range []*TypeDesc{desc[GCA]("GCA", false, true), desc[GCB]("GCB", false, true), desc[GCC]("GCC", false, false), desc[GCD]("GCD", false, true), desc[GCE]("GCE", false, true), desc[GCF]("GCF", true, false)} {
+	for _, d := range []*TypeDesc{desc[GCA]("GCA", false, true), desc[GCB]("GCB", false, true), desc[GCC]("GCC", false, false), desc[GCD]("GCD", false, true), desc[GCE]("GCE", false, true), desc[GCN]("GCN", false, false), desc[GCF]("GCF", true, false)} {
 		d.GCOnly = true
 		addType(d)
 	}
@@ -325,9 +347,9 @@ func (c11Prop) Generate(seed uint64, idx int, tier string) *Plan {
 	if r.P(1, 4) {
 		pl.Dir = "encode"
 	}
-	types := []string{"GCA", "GCA", "GCB", "GCB", "GCC", "GCC", "GCD", "GCD", "GCE", "GCE", "GCE", "GCF", "Maps", "Slices", "Ptrs", "Mixed", "Nested", "Timed", "Timed", "Nulls", "NullPtrs"}
+	types := []string{"GCA", "GCA", "GCB", "GCB", "GCC", "GCC", "GCD", "GCD", "GCE", "GCE", "GCE", "GCN", "GCN", "GCF", "Maps", "Slices", "Ptrs", "Mixed", "Nested", "Timed", "Timed", "Nulls", "NullPtrs"}
 	if pl.Dir == "encode" {
-		types = []string{"GCA", "GCB", "GCB", "GCC", "GCD", "GCD", "GCE", "GCE", "Maps", "Mixed"}
+		types = []string{"GCA", "GCB", "GCB", "GCC", "GCD", "GCD", "GCE", "GCE", "GCN", "Maps", "Mixed"}
 	}
 	fs := genFileSpec(r, types, pl.Dir == "decode", 8)
 	if fs.N == 0 {
